@@ -80,7 +80,7 @@ func c01(c *Ctx) {
 					}
 					if fv == snapFld && fv != nil {
 						tn := topName(f)
-						R.Check(tn == "Select" || tn == "Examine" || tn == "close" || tn == "NewState", "R01.1", c.name(f)+"|store State.snap", P.Pos(t.Pos()), "State.snap assigned by Select/Examine/close", "State.snap is replaced outside Select/Examine/close: the selected view changes without the client being told")
+						R.Check(tn == "Select" || tn == "Examine" || tn == "close" || tn == "NewState" || c.onlyCalledFrom(topFn(f), 1, "internal/state.(*State).Select", "internal/state.(*State).Examine"), "R01.1", c.name(f)+"|store State.snap", P.Pos(t.Pos()), "State.snap assigned by Select/Examine/close", "State.snap is replaced outside Select/Examine/close: the selected view changes without the client being told")
 					}
 				case *ssa.MapUpdate:
 					if ld, ok := t.Map.(*ssa.UnOp); ok {
@@ -284,36 +284,73 @@ func c01forward(c *Ctx) {
 	// flushResponses: handle's responses appended wholesale to the returned slice
 	if fr := c.fn("R01.3", "internal/state.(*State).flushResponses"); fr != nil {
 		ok := false
-		for _, cs := range engine.Calls(fr) {
-			cc := cs.Common()
-			if !(cc.IsInvoke() && cc.Method.Name() == "handle") {
-				continue
+		mergeOpts := engine.FlowOpts{AppendBase: true, Calls: func(cl *ssa.Call) []ssa.Value {
+			if sc := cl.Call.StaticCallee(); sc != nil && engine.ShortName(sc) == "Merge" {
+				return cl.Call.Args
 			}
-			call := cs.Instr.(*ssa.Call)
-			var res ssa.Value
-			for _, r := range *call.Referrers() {
-				if ex, isEx := r.(*ssa.Extract); isEx && ex.Index == 0 {
-					res = ex
+			return nil
+		}}
+		// reachesResult: on a nil-error return of g, which result (index) is built from value v
+		reachesResult := func(g *ssa.Function, v ssa.Value) int {
+			for _, ret := range engine.Returns(g) {
+				if !engine.IsNilConst(engine.LastResult(ret)) {
+					continue
+				}
+				for i := 0; i < len(ret.Results)-1; i++ {
+					if engine.AnyBackward(engine.ResultOf(ret, i), mergeOpts, func(x ssa.Value) bool { return x == v }) {
+						return i
+					}
 				}
 			}
-			if res == nil {
+			return -1
+		}
+		for _, g := range c.withPackageHelpers(fr, "internal/state", 1) {
+			if g.Parent() != nil {
 				continue
 			}
-			for _, r := range *res.Referrers() {
-				if app, isApp := r.(*ssa.Call); isApp {
-					if _, is := engine.IsBuiltinCall(app, "append"); is && len(app.Call.Args) == 2 && app.Call.Args[1] == res {
-						// the append result reaches the return (through Merge)
-						for _, ret := range engine.Returns(fr) {
-							if engine.IsNilConst(engine.ResultOf(ret, 1)) {
-								if engine.AnyBackward(engine.ResultOf(ret, 0), engine.FlowOpts{AppendBase: true, Calls: func(cl *ssa.Call) []ssa.Value {
-									if sc := cl.Call.StaticCallee(); sc != nil && engine.ShortName(sc) == "Merge" {
-										return cl.Call.Args
-									}
-									return nil
-								}}, func(v ssa.Value) bool { return v == ssa.Value(app) }) {
-									// the append must not be conditional inside the loop: dominated only by the err==nil edge
-									ok = true
-								}
+			for _, cs := range engine.Calls(g) {
+				cc := cs.Common()
+				if !(cc.IsInvoke() && cc.Method.Name() == "handle") || cs.Instr.Parent() != g {
+					continue
+				}
+				call := cs.Instr.(*ssa.Call)
+				var res ssa.Value
+				for _, r := range *call.Referrers() {
+					if ex, isEx := r.(*ssa.Extract); isEx && ex.Index == 0 {
+						res = ex
+					}
+				}
+				if res == nil {
+					continue
+				}
+				for _, r := range *res.Referrers() {
+					app, isApp := r.(*ssa.Call)
+					if !isApp {
+						continue
+					}
+					if _, is := engine.IsBuiltinCall(app, "append"); !is || len(app.Call.Args) != 2 || app.Call.Args[1] != res {
+						continue
+					}
+					idx := reachesResult(g, app)
+					if idx < 0 {
+						continue
+					}
+					if g == fr {
+						ok = true
+						continue
+					}
+					// the helper's result must in turn reach what flushResponses returns
+					for _, cs2 := range engine.Calls(fr) {
+						if cs2.Common().StaticCallee() != g || cs2.Instr.Parent() != fr {
+							continue
+						}
+						c2, isCall := cs2.Instr.(*ssa.Call)
+						if !isCall {
+							continue
+						}
+						for _, r2 := range *c2.Referrers() {
+							if ex, isEx := r2.(*ssa.Extract); isEx && ex.Index == idx && reachesResult(fr, ex) == 0 {
+								ok = true
 							}
 						}
 					}
@@ -509,6 +546,7 @@ func c01announceInOrder(c *Ctx) {
 	if pop == nil {
 		return
 	}
+	pop, _, _ = holdBackFunction(pop) // popResponders itself, or the method it dispatches to when permitExpunge is false
 	resFld := c.fieldOf("internal/state", "State", "res")
 	// remainder chain: appends whose result ends in the store to State.res; popped chain: appends whose result is returned
 	flowsTo := func(call *ssa.Call, sink func(ssa.Instruction) bool) bool {
